@@ -17,6 +17,10 @@ const (
 	eAddRequired   = "add-required-field"
 	eOptToReq      = "optional-to-required"
 	eChangeType    = "change-field-type"
+	// optional -> required on a field that carried a default value in the base
+	// (the default goes away with the edit: thriftrw compiles `required` with a
+	// default as not required); reported like any optional -> required
+	eOptToReqDefault = "optional-with-default-to-required"
 
 	eAddOptional   = "add-optional-field"
 	eAddMethod     = "add-method"
@@ -35,11 +39,12 @@ const (
 	eLookalike     = "add-lookalike-file" // only in the rename-like unit
 )
 
-var breakingEdits = map[string]bool{eRemoveService: true, eRemoveMethod: true, eAddRequired: true, eOptToReq: true, eChangeType: true}
+var breakingEdits = map[string]bool{eRemoveService: true, eRemoveMethod: true, eAddRequired: true, eOptToReq: true, eChangeType: true, eOptToReqDefault: true}
 
 var allEdits = []string{
 	eRemoveService, eRemoveMethod, eAddRequired, eOptToReq, eChangeType,
 	eRemoveService, eRemoveMethod, eAddRequired, eOptToReq, eChangeType,
+	eOptToReqDefault, eOptToReqDefault,
 	eAddOptional, eAddMethod, eAddService, eAddStruct, eAddEnum, eAddConst, eAddTypedef, eAddFile,
 	eReorder, eReqToOpt, eDeleteStruct, eDeleteFile, eAddInclude, eRemoveInclude,
 }
@@ -189,7 +194,7 @@ func (g *gen) newField(f *file, owner *def, id int, orig bool) *field {
 	if owner.Kind != "union" && g.chance(45, "required") {
 		fl.Req = "required"
 	}
-	if orig && owner.Kind != "union" && g.chance(12, "default") {
+	if orig && owner.Kind != "union" && g.chance(20, "default") {
 		if dv := defaultFor(fl.T, g.p.next); dv != "" {
 			fl.Default, fl.frozen = dv, true
 		}
@@ -459,6 +464,17 @@ func (g *gen) apply(kind string) bool {
 		}
 		x := pick(g, c, "field")
 		x.fl.Req, x.fl.reqEdited = "required", true
+		g.expect(x.d.file, kOptToReq, x.fl.Name, x.d.Name)
+		x.d.hasDiag, x.d.file.hasDiag = true, true
+	case eOptToReqDefault:
+		c := g.fieldsOf(func(d *def, fl *field) bool {
+			return d.Kind != "union" && fl.orig && !fl.reqEdited && fl.frozen && fl.Default != "" && fl.Req == "optional"
+		})
+		if len(c) == 0 {
+			return false
+		}
+		x := pick(g, c, "field")
+		x.fl.Req, x.fl.Default, x.fl.reqEdited = "required", "", true // stays frozen for type edits
 		g.expect(x.d.file, kOptToReq, x.fl.Name, x.d.Name)
 		x.d.hasDiag, x.d.file.hasDiag = true, true
 	case eReqToOpt:
